@@ -66,6 +66,7 @@ namespace ip {
 		s.m_forwarder.reset();
 		s.m_open = false;
 		s.m_bound_to = ip::udp::endpoint();
+		s.m_user_bound_to = ip::udp::endpoint();
 		if (m_bound_to != ip::udp::endpoint())
 			m_io_service.rebind_udp_socket(this, m_bound_to);
 	}
@@ -127,6 +128,7 @@ namespace ip {
 		m_open = true;
 		m_is_v4 = (protocol == ip::udp::v4());
 		m_forwarder = std::make_shared<aux::sink_forwarder>(this);
+		ec.clear();
 	}
 	catch (std::bad_alloc const&)
 	{
@@ -183,14 +185,14 @@ namespace ip {
 		ec = err.code();
 	}
 
-	void udp::socket::cancel(boost::system::error_code&)
+	void udp::socket::cancel(boost::system::error_code& ec)
 	{
 		// cancel outstanding async operations
 		abort_recv_handlers();
 		abort_send_handlers();
 		m_recv_timer.cancel();
 		m_send_timer.cancel();
-		return;
+		ec.clear();
 	}
 
 	void udp::socket::cancel()
